@@ -141,6 +141,15 @@ def _elements(ctx, fn, e: ast.AST, use: ast.AST, assume: Dict[str, bool], depth:
                 continue
             if v is None:
                 return None
+            if isinstance(v, ast.Dict) and not v.keys:
+                # an empty table filled by `for i, j in enumerate(S): T[i] = j`
+                fills = [f_ for f_ in _enumerate_fill(fn, e.id) if not any(t in assume and assume[t] != pol for t, pol in _guard_conditions(fn.node, A.enclosing_stmt(f_) or f_))]
+                if len(fills) == 1:
+                    r = _elements(ctx, fn, fills[0], use, assume, depth + 1)
+                    if r is None:
+                        return None
+                    outs.append(r)
+                    continue
             if isinstance(v, ast.Call) and not (isinstance(v.func, ast.Name) and v.func.id in ("tuple", "list", "enumerate", "dict")):
                 outs.append(frozenset({("all", e.id)}))
                 continue
@@ -159,6 +168,18 @@ def _elements(ctx, fn, e: ast.AST, use: ast.AST, assume: Dict[str, bool], depth:
     if isinstance(e, ast.Attribute):
         return frozenset({("all", A.unparse(e))})
     return None
+
+
+def _enumerate_fill(fn, table: str) -> List[ast.AST]:
+    """sequences S such that `for i, j in enumerate(S): table[i] = j` fills the table"""
+    out = []
+    for lp in A.walk_no_nested(fn.node):
+        if isinstance(lp, ast.For) and isinstance(lp.iter, ast.Call) and isinstance(lp.iter.func, ast.Name) and lp.iter.func.id == "enumerate" and lp.iter.args and isinstance(lp.target, ast.Tuple) and len(lp.target.elts) == 2:
+            i_, j_ = [A.unparse(x) for x in lp.target.elts]
+            for st in lp.body:
+                if isinstance(st, ast.Assign) and len(st.targets) == 1 and isinstance(st.targets[0], ast.Subscript) and A.unparse(st.targets[0].value) == table and A.unparse(st.targets[0].slice) == i_ and A.unparse(st.value) == j_ and len(lp.body) == 1:
+                    out.append(lp.iter.args[0])
+    return out
 
 
 def _scalar(ctx, fn, e: ast.AST, use: ast.AST, assume: Dict[str, bool]) -> Optional[str]:
@@ -361,6 +382,8 @@ class Gadget:
                 for n in ast.walk(v):
                     if isinstance(n, ast.Call) and isinstance(n.func, ast.Name) and n.func.id == "enumerate" and n.args:
                         out.add(A.unparse(n.args[0]))
+        for seq_ in _enumerate_fill(self.fn, self.exit_tbl):
+            out.add(A.unparse(seq_))
         return out
 
 
@@ -1144,6 +1167,9 @@ def ctrl11(ctx) -> List[Ob]:
             out.append(unresolved("CTRL-11", fn.qualname, key, where, "cannot read the guard of the arc"))
             continue
         need = {f"{arc} in {q}" for q in seqs}
+        if not need:
+            out.append(unresolved("CTRL-11", fn.qualname, key, where, "cannot see which sequence the looked-up table enumerates"))
+            continue
         dis = _dnf(guard)
         lacking = [sorted(d) for d in dis if not (d & need)]
         if not lacking:
